@@ -1662,11 +1662,15 @@ fn premise_scan(ctx: &mut Ctx) {
             }
         }
     }
+    // A new hit is not a verdict and does not stop the check (a violation must never be masked by an
+    // error): it is printed and recorded; the schedule explorer (harness-sched) and the pool-size grid
+    // below remain the judges, but the step from task schedules to all interleavings needs re-analysis.
     for h in &fresh {
-        ctx.machinery_error(format!("premise scan: NEW hit, the schedule-independence argument must be re-analysed (not a verdict): {h}"));
+        println!("PREMISE-WARNING: new shared-state / reduction construct in a parallel path, the task-level schedule model must be re-analysed: {h}");
     }
+    ctx.bound("premise_scan_new_hits", serde_json::json!(fresh));
     ctx.bound("premise_scan", format!("{} files, {par_files} with parallel constructs, {state_hits} shared-state/unsafe token hits and {comb_hits} reduction/early-exit combinator hits, all on the allow-list", files.len()));
-    ctx.assume("schedules inside one rayon pool are NOT enumerated (rayon cannot be put under a controlled scheduler). Premise, re-checked textually at start-up: every parallel path in ff/ec/poly/serialize uses only rayon's safe data-parallel combinators over disjoint chunks; no Atomic/Mutex/RwLock/RefCell/static mut/thread_local/unsafe in or near them; parallel reductions are sums/products of field elements (exact, commutative, associative) and collect() preserves order; hence every result is a function of (input, current_num_threads) only, and that function's domain is what is enumerated. Every cell is additionally run 3 times per pool size (uncontrolled-nondeterminism probe).");
+    ctx.assume("instruction-level interleavings inside a real rayon pool are not enumerated here (task schedules are, by the schedule explorer on the rayon stand-in, see coverage.schedule_exploration). Premise, re-checked textually at start-up: every parallel path in ff/ec/poly/serialize uses only rayon's safe data-parallel combinators over disjoint chunks; no Atomic/Mutex/RwLock/RefCell/static mut/thread_local/unsafe in or near them; parallel reductions are sums/products of field elements (exact, commutative, associative) and collect() preserves order; hence every result is a function of (input, current_num_threads) only, and that function's domain is what is enumerated. Every cell is additionally run 3 times per pool size (uncontrolled-nondeterminism probe).");
 }
 
 // ------------------------------------------------------------------------------------------
